@@ -178,6 +178,14 @@ def _jsonable(v):
     return repr(v)
 
 
+class HardTimeout(BaseException):
+    """a single path ran far beyond the whole job's budget (BaseException: no harness or code under test catches it)"""
+
+
+def _hard_alarm(signum, frame):
+    raise HardTimeout()
+
+
 def explore(
     harness: Callable[..., Any],
     *,
@@ -189,6 +197,7 @@ def explore(
     reset: Optional[Callable[[], None]] = None,
     name: Optional[str] = None,
     shard: Any = None,
+    hard_limit_s: Optional[float] = None,
 ) -> XHResult:
     """Explore all paths of `harness`; parameters named in `fixed` are concrete, others symbolic.
 
@@ -209,6 +218,12 @@ def explore(
     wall0 = time.perf_counter()
     cpu0 = time.process_time()
     root = RootNode()
+    import signal
+    hard_limit = float(hard_limit_s) if hard_limit_s else float(budget_s) + 60.0
+    try:
+        old_handler = signal.signal(signal.SIGALRM, _hard_alarm)
+    except ValueError:          # not in the main thread: no watchdog
+        old_handler = None
     while True:
         if res.paths >= max_paths:
             res.stop_reason = "max_paths"
@@ -227,60 +242,71 @@ def explore(
             reset()
         status = None
         breakout = False
-        with condition_parser([AnalysisKind.PEP316]), Patched(), COMPOSITE_TRACER, NoTracing(), StateSpaceContext(space):
-            try:
-                pre_args = gen_args(sig)
-                args = deepcopyext(pre_args, CopyMode.REGULAR, {})
-                with ExceptionFilter() as efilter, ResumedTracing():
-                    harness(*args.args, **args.kwargs, **fixed)
-                if efilter.ignore:
-                    raise IgnoreAttempt()
-                if efilter.user_exc is not None:
-                    exc, tb = efilter.user_exc
-                    if isinstance(exc, NotDeterministic):
-                        raise NotDeterministic
-                    if isinstance(exc, HarnessError):
-                        res.error = f"HarnessError: {exc}"
-                    with ResumedTracing():
-                        space.detach_path(exc)
-                        realised = deep_realize(pre_args.arguments)
-                        msg = deep_realize(str(exc))
-                    res.counterexample = None if isinstance(exc, HarnessError) else {
-                        "args": _jsonable(dict(realised)),
-                        "exc_type": type(exc).__name__,
-                        "message": msg,
-                        "traceback": "".join(tb.format()[-12:]),
-                    }
-                    status = VerificationStatus.REFUTED
-                    breakout = True
-                else:
-                    status = VerificationStatus.CONFIRMED
-                    res.confirmed += 1
-                    if len(res.samples) < n_samples:
-                        with ResumedTracing():
-                            space.detach_path()
-                            realised = deep_realize(pre_args.arguments)
-                        res.samples.append(_jsonable(dict(realised)))
-            except IgnoreAttempt:
-                status = None
-                res.ignored += 1
-            except UnexploredPath as e:
-                status = VerificationStatus.UNKNOWN
-                res.unknown += 1
-                if isinstance(e, NotDeterministic):
-                    res.error = "NotDeterministic: harness or code under test is not deterministic under CrossHair"
-                    breakout = True
-            except NotDeterministic:
-                status = VerificationStatus.UNKNOWN
-                res.unknown += 1
-                res.error = "NotDeterministic"
-                breakout = True
-            try:
-                _, exhausted = space.bubble_status(CallAnalysis(status))
-            except Exception as e:  # engine error
-                res.error = f"bubble_status failed: {e!r}"
-                breakout = True
-                exhausted = False
+        if old_handler is not None:
+            signal.setitimer(signal.ITIMER_REAL, hard_limit)
+        try:
+          with condition_parser([AnalysisKind.PEP316]), Patched(), COMPOSITE_TRACER, NoTracing(), StateSpaceContext(space):
+              try:
+                  pre_args = gen_args(sig)
+                  args = deepcopyext(pre_args, CopyMode.REGULAR, {})
+                  with ExceptionFilter() as efilter, ResumedTracing():
+                      harness(*args.args, **args.kwargs, **fixed)
+                  if efilter.ignore:
+                      raise IgnoreAttempt()
+                  if efilter.user_exc is not None:
+                      exc, tb = efilter.user_exc
+                      if isinstance(exc, NotDeterministic):
+                          raise NotDeterministic
+                      if isinstance(exc, HarnessError):
+                          res.error = f"HarnessError: {exc}"
+                      with ResumedTracing():
+                          space.detach_path(exc)
+                          realised = deep_realize(pre_args.arguments)
+                          msg = deep_realize(str(exc))
+                      res.counterexample = None if isinstance(exc, HarnessError) else {
+                          "args": _jsonable(dict(realised)),
+                          "exc_type": type(exc).__name__,
+                          "message": msg,
+                          "traceback": "".join(tb.format()[-12:]),
+                      }
+                      status = VerificationStatus.REFUTED
+                      breakout = True
+                  else:
+                      status = VerificationStatus.CONFIRMED
+                      res.confirmed += 1
+                      if len(res.samples) < n_samples:
+                          with ResumedTracing():
+                              space.detach_path()
+                              realised = deep_realize(pre_args.arguments)
+                          res.samples.append(_jsonable(dict(realised)))
+              except IgnoreAttempt:
+                  status = None
+                  res.ignored += 1
+              except UnexploredPath as e:
+                  status = VerificationStatus.UNKNOWN
+                  res.unknown += 1
+                  if isinstance(e, NotDeterministic):
+                      res.error = "NotDeterministic: harness or code under test is not deterministic under CrossHair"
+                      breakout = True
+              except NotDeterministic:
+                  status = VerificationStatus.UNKNOWN
+                  res.unknown += 1
+                  res.error = "NotDeterministic"
+                  breakout = True
+              try:
+                  _, exhausted = space.bubble_status(CallAnalysis(status))
+              except Exception as e:  # engine error
+                  res.error = f"bubble_status failed: {e!r}"
+                  breakout = True
+                  exhausted = False
+        except HardTimeout:
+            res.error = (f"hard timeout: one path ran longer than {hard_limit:.0f} s "
+                         f"(the code under test does not terminate on some input of this space, or the native sweep is far larger than the budget)")
+            breakout = True
+            exhausted = False
+        finally:
+            if old_handler is not None:
+                signal.setitimer(signal.ITIMER_REAL, 0)
         if breakout:
             res.stop_reason = "counterexample" if res.counterexample else "error"
             break
@@ -288,6 +314,8 @@ def explore(
             res.exhausted = True
             res.stop_reason = "exhausted"
             break
+    if old_handler is not None:
+        signal.signal(signal.SIGALRM, old_handler)
     c1, t1s, u1 = SolverStats.snapshot()
     res.solver_checks = c1 - c0
     res.solver_time_s = round(t1s - t0s, 3)
